@@ -86,9 +86,13 @@ def run_cases(chk, exe, cases, rng):
             # length perturbations: the spec says whether (and as what) the perturbed bytes parse
             for b in x["variants"]["bump"]:
                 pb = bytes(b["bytes"])
-                def p_chk(o, res=b["res"]):
+                def p_chk(o, res=b["res"], pb=pb):
                     f = kv(o)
                     acc = f.get("rc") == "0" and f.get("exp") == "0"
+                    if f.get("retry", "0") != "0":
+                        return "a nested payload refused at the first expansion was accepted when the same element was asked again: %s" % o[:160]
+                    if o.startswith("E ") and f.get("rc") == "0" and not acc and f.get("ser") not in (None, "ERR", pb.hex()):
+                        return "an element whose expansion was refused serializes to other bytes than it was parsed from: %s" % o[:200]
                     if acc != res["ok"]:
                         return "length perturbation: spec ok=%s libksi %s" % (res["ok"], o[:160])
                     if acc and f.get("tree") != canon(res["t"]):
